@@ -282,7 +282,8 @@ impl<T: Clone, N, S: Storage<T, N>> Cluster<T, N, S> {
 
         match (&self.state, &request.data, &response.result) {
             (Election, PreVote, OK) => Ok(self.pre_vote_received(request)),
-            (Candidate, Vote, OK) => Ok(self.vote_received(request)),
+            // a vote answering the request of an earlier election does not count
+            (Candidate, Vote, OK) if request.term == self.term => Ok(self.vote_received(request)),
             (Leader, Heartbeat | Append(_), OK) => self.commit(request).await,
             (Leader, Heartbeat | Append(_), LogMismatch(mismatch)) => {
                 self.reconcile(request, mismatch).await
@@ -584,6 +585,9 @@ impl<T: Clone, N, S: Storage<T, N>> Cluster<T, N, S> {
         self.validate_vote_state(request)?;
         self.validate_term_for_vote(request)?;
         self.validate_log_for_vote(request)?;
+        // The voter moves to the candidate's term: it must neither vote again in
+        // this term nor accept anything from a leader of an older term.
+        self.term = request.term;
         self.state = ClusterState::Voted(request.term);
         Self::ok(request)
     }
